@@ -58,8 +58,9 @@ func NewBounds(facts []Fact, canon Canon) *Bounds {
 				continue
 			}
 		}
-		x, okx := canon(bo.X)
-		y, oky := canon(bo.Y)
+		cf := f.Canon(canon)
+		x, okx := cf(bo.X)
+		y, oky := cf(bo.Y)
 		if !okx || !oky {
 			continue
 		}
